@@ -41,7 +41,7 @@ func init() {
 			}
 			gombokrun.Post(gombokrun.ModeJSON)(pc)
 		}
-		r.Rule += "; @fp.Json structs: scenario json-structs, leaf = one scratch package of up to " + fmt.Sprint(size) + " struct shapes of the C07 grammar (one-field over kind x visibility, json tag variants, field counts, generic constraint forms, grouped fields, every embedded form next to an ordinary field in both positions, three-field mixed structs, structs that declare one of the generated members by hand (incl. MarshalJSON, UnmarshalJSON, both), slice / map / []byte fields whose values tell nil from empty-but-non-nil under tags with and without omitempty; thorough: two-field structs), " +
+		r.Rule += "; @fp.Json structs: scenario json-structs, leaf = one scratch package of up to " + fmt.Sprint(size) + " struct shapes of the C07 grammar (one-field over kind x visibility, json tag variants, field counts, generic constraint forms, grouped fields, every embedded form next to an ordinary field in both positions, three-field mixed structs, structs that declare one of the generated members by hand (incl. MarshalJSON, UnmarshalJSON, both), slice / map / []byte fields whose values tell nil from empty-but-non-nil under tags with and without omitempty, interface-typed locations (any, map[string]any, []any, struct{V any}, Option[any]) holding values of the closed set encoding/json produces (float64, string, bool, nil, map[string]any, []any) with the full round trip demanded; thorough: two-field structs), " +
 			"declarations -> gombok from the tree under test -> go build with a generated law test -> run; for every struct all combinations of two faithful values per field: Marshal(x) = Marshal(x.AsMutable()) = Marshal(public twin with the documented tags) byte for byte, " +
 			"Unmarshal(Marshal(x)) = x on the encoded fields (json.Unmarshal and UnmarshalJSON called directly), a fixed list of malformed documents plus ill-typed values for every field never panic and leave a preloaded target unchanged on error; states = structs, transitions = law evaluations"
 		r.Assumptions = append(r.Assumptions,
